@@ -51,6 +51,12 @@ def spec_matrix_bincount2d(a, b, n_a, n_b):
     # the kernel's own input assertions (proved to guard every access by the E2 safety jobs)
     assert ra_.shape[0] == rb_.shape[0], "Feature arrays a and b must match in length"
     T = ra_.shape[0]
+    rng_ok = core.sand(*([sand(v >= 0, v < n_a) for v in ra_.flat if isinstance(v, SVal)] +
+                         [sand(v >= 0, v < n_b) for v in rb_.flat if isinstance(v, SVal)] + [True]))
+    conc_ok = all(0 <= int(v) < n_a for v in ra_.flat if not isinstance(v, SVal)) and \
+        all(0 <= int(v) < n_b for v in rb_.flat if not isinstance(v, SVal))
+    if not conc_ok or not core.branch(rng_ok):
+        raise AssertionError("States indices must be contiguous / non-negative.")
     o = np.empty((ra_.shape[1], rb_.shape[1], n_a, n_b), dtype=object)
     for x in range(ra_.shape[1]):
         for y in range(rb_.shape[1]):
@@ -692,6 +698,55 @@ def mismatch_job():
     return path
 
 
+def outofrange_job(nx=2, ny=3, T=2):
+    """state ids outside their OWN side's declared range are rejected by mi_matrix even when they would be legal for the other
+    side (different state counts on the two sides); in-range data is accepted"""
+    mi_mod = loader.load('enspara.info_theory.mutual_info')
+
+    def path(ctx):
+        ctx.resolve_masks = True
+        hi = max(nx, ny)
+        xs = [core.fresh_int('x', 0, hi - 1) for _ in range(T)]
+        ys = [core.fresh_int('y', 0, hi - 1) for _ in range(T)]
+        X = [funcs.np_array([[v] for v in xs], dtype=np.int32)]
+        Y = [funcs.np_array([[v] for v in ys], dtype=np.int32)]
+        exc = None
+        try:
+            mi_mod.mi_matrix(X, Y, [nx], [ny], normalize=False)
+        except (core.Unsupported, core.Inconclusive):
+            raise
+        except Exception as e:
+            exc = e
+        inrange = core.sand(*([v < nx for v in xs] + [v < ny for v in ys]))
+
+        def witness(model):
+            xv, yv = [int(ev(model, v)) for v in xs], [int(ev(model, v)) for v in ys]
+            out = {'inputs': {'X': xv, 'Y': yv, 'n_x': [nx], 'n_y': [ny]}, 'skip_compare': True, 'out': None}
+            ok = all(v < nx for v in xv) and all(v < ny for v in yv)
+            with core.concrete_mode():
+                try:
+                    mi_mod.mi_matrix([np.array([[v] for v in xv], dtype=np.int32)], [np.array([[v] for v in yv], dtype=np.int32)],
+                                     [nx], [ny], normalize=False)
+                    raised = None
+                except Exception as e:
+                    raised = type(e).__name__
+                    out['exception'] = repr(e)
+            bad = []
+            if not ok and raised is None:
+                bad.append('a state id outside its own side\'s range was counted instead of rejected')
+                out['signature'] = 'out-of-range-id-accepted'
+            if ok and raised is not None:
+                bad.append('in-range data rejected with %s' % raised)
+                out['signature'] = 'in-range-data-rejected'
+            out['violated'] = bad
+            return out
+        if exc is not None:
+            return PathOut([('only-out-of-range-ids-are-rejected', core.snot(inrange))], {}, witness, exc=type(exc).__name__,
+                           desc='rejected with %s' % type(exc).__name__)
+        return PathOut([('ids-outside-their-own-range-are-rejected', inrange)], {}, witness, desc='accepted')
+    return path
+
+
 def kl_job(n):
     en = loader.load('enspara.info_theory.entropy')
 
@@ -839,6 +894,8 @@ def jobs(tier):
     if not q:
         add('lagged_job', 'time-lagged-mi[4 frames x 2 features, overlapping views]', T=4)
     add('mismatch_job', 'length-mismatch-rejected[per trajectory, also when the totals agree]')
+    add('outofrange_job', 'out-of-range-ids[states 2 vs 3]', nx=2, ny=3, T=2)
+    add('outofrange_job', 'out-of-range-ids[states 3 vs 2]', nx=3, ny=2, T=2)
     add('pooled_job', 'pooled-counts[2 trajectories x 3 frames]', T=3)
     add('pooled_job', 'pooled-counts[2 x 130 frames (2 symbolic each): count tables must not wrap in a narrow dtype]', T=130, nsym=2)
     from harness import kernels
